@@ -12,7 +12,7 @@
    file in order with chunks replaced by their inner schema/channel/message records.
 
    Proofs: theories/PyReadFacts.v. *)
-From Mcap Require ConstsTie LayoutTie. (* regenerated ties to /repo's source that this property's model relies on *)
+From Mcap Require ConstsTie LayoutTie PyDecisionTie. (* regenerated ties to /repo's source that this property's model relies on *)
 From Coq Require Import List NArith ZArith Bool Permutation Sorted.
 From Coq.Strings Require Import Byte.
 From Mcap Require Import Bytes GoSem Crc32 Records RecordsFacts Writer Lexer LexSpec Py PyReadFacts.
